@@ -71,7 +71,6 @@ func (w *world) getSpec(fn *types.Func, vec []byte) *spec {
 	sp := &spec{key: key, fn: fn, vec: append([]byte(nil), vec...), name: goName(fn) + vecString(vec),
 		short: shortName(fn), nslots: len(vec), pos: fn.Pos()}
 	sp.prim = w.prims[fn] != nil
-	sp.entry = w.isEntry(fn)
 	w.specs[key] = sp
 	w.specOrder = append(w.specOrder, sp)
 	return sp
@@ -163,15 +162,21 @@ func (w *world) detectPrimitives() {
 // everything that was requested on the way (call sites, go statements).
 func (w *world) run() {
 	w.detectPrimitives()
+	w.checkPackageLevelLiterals()
 	for _, fn := range w.declOrder {
 		for _, vec := range w.defaultVecs(fn) {
 			sp := w.getSpec(fn, vec)
 			sp.deflt = true
+			sp.entry = w.isEntry(fn)
 			w.ensure(sp)
 			w.drain()
 		}
 	}
 	w.drain()
+	for i := 0; i < len(w.specOrder); i++ {
+		w.ensure(w.specOrder[i])
+		w.drain()
+	}
 }
 
 // drain translates the queued spawn targets (they are thread roots: they are
@@ -182,6 +187,30 @@ func (w *world) drain() {
 		if sp := w.specOrder[i]; sp.state == 0 && sp.spawn && len(w.stack) == 0 {
 			w.translate(sp)
 			i = -1
+		}
+	}
+}
+
+// checkPackageLevelLiterals: a function literal stored in a package-level
+// variable would be called without any event; it must be silent.
+func (w *world) checkPackageLevelLiterals() {
+	for _, f := range w.pkg.Syntax {
+		for _, d := range f.Decls {
+			gd, ok := d.(*ast.GenDecl)
+			if !ok {
+				continue
+			}
+			ast.Inspect(gd, func(n ast.Node) bool {
+				fl, ok := n.(*ast.FuncLit)
+				if !ok {
+					return true
+				}
+				t := &tr{w: w, sp: &spec{name: "<package-level initialiser>"}, env: env{}, blockEnvs: map[*node][]env{}, probe: true}
+				if t.litHasEvents(fl) {
+					w.failClosed(fl.Pos(), "package-level function literal with lock-relevant events")
+				}
+				return false
+			})
 		}
 	}
 }
